@@ -1,5 +1,5 @@
 (* C08 — Token conservation during accumulation. Property theorems only. *)
-From JamV Require Import Base.Bytes Model.Accounts Model.AccCalls Proofs.AccountsP Proofs.AccCallsP.
+From JamV Require Import Base.Bytes Model.Accounts Model.AccCalls Proofs.AccountsP Proofs.AccCallsP Proofs.AccGoRefineP.
 Local Open Scope N_scope.
 
 (* Every call and, by induction, every call sequence from any pair of contexts: the exact (unbounded) sum of
@@ -53,6 +53,24 @@ Theorem C08_go_arith_exact :
 Proof. exact (conj debit_new_go_exact (conj debit_xfer_go_exact add_go_exact)). Qed.
 Print Assumptions C08_go_arith_exact.
 
+(* state level: on every context whose numbers are within the machine ranges (supply < 2^64, items < 2^31,
+   octets < 2^62) and every call with uint32/uint64 operands, the step computed with the repaired Go arithmetic
+   IS the specification step; hence whole runs coincide while the specification's states stay in range, and
+   so does the incoming credit of Psi_A *)
+Theorem C08_go_step_refines : forall e o st,
+  small_ctx (fst st) -> small_op o -> step ar_go e o st = step ar_exact e o st.
+Proof. exact go_step_refines. Qed.
+Print Assumptions C08_go_step_refines.
+
+Theorem C08_go_run_refines : forall e ops st, small_run e ops st -> run ar_go e ops st = run ar_exact e ops st.
+Proof. exact go_run_refines. Qed.
+Print Assumptions C08_go_run_refines.
+
+Theorem C08_credit_go_exact : forall e amts d,
+  sum_bal d + sum_list amts < two64 -> credit ar_go e amts d = credit ar_exact e amts d.
+Proof. exact credit_go. Qed.
+Print Assumptions C08_credit_go_exact.
+
 (* a call returning CASH changes nothing at all (a fortiori no balance); same for every other rejection *)
 Theorem C08_cash_no_change : forall ar e o st st', step ar e o st = (RCash, st') -> st' = st.
 Proof. exact cash_no_change. Qed.
@@ -96,3 +114,13 @@ Example C08_ex_witness_cash :
 Proof. vm_compute. split; reflexivity. Qed.
 Example C08_ex_no_wrap_hyp : sum_bal (c_accts (ex_ctx 1000)) + sum_list [5; 6] < two64.
 Proof. vm_compute. reflexivity. Qed.
+Example C08_ex_small : small_ctx (ex_ctx 1000) /\ small_op (ONew (repeat 9 32) 10 5 6 0 0) /\
+  small_run ex_env [ONew (repeat 9 32) 10 5 6 0 0] (ex_ctx 1000, ex_ctx 1000).
+Proof.
+  assert (S : forall b, b < two64 -> small_acct (ex_acct b)).
+  { intros b Hb. unfold small_acct, ex_acct. cbn [a_bal a_items a_octets a_gratis]. unfold two64 in *. lia. }
+  assert (C : small_ctx (ex_ctx 1000)).
+  { split; [repeat constructor; apply S; reflexivity | vm_compute; reflexivity]. }
+  split; [exact C |]. split; [split; reflexivity |].
+  cbn [small_run fst]. split; [exact C |]. split; [split; reflexivity | exact I].
+Qed.
